@@ -12,6 +12,7 @@ import (
 	"crypto/sha256"
 	"fmt"
 	"io"
+	"runtime"
 	"strings"
 	"sync"
 	"testing"
@@ -198,6 +199,48 @@ func framedMessages(round int) error {
 	return nil
 }
 
+// slowPrintf is the destination of one cron logger: it formats the line a
+// little later than it was handed the arguments (a slow sink), so that a
+// logger that lends out pooled argument lists is caught re-using them.
+type slowPrintf struct {
+	mu    sync.Mutex
+	lines []string
+}
+
+func (p *slowPrintf) Printf(format string, args ...interface{}) {
+	runtime.Gosched()
+	l := fmt.Sprintf(format, args...)
+	p.mu.Lock()
+	p.lines = append(p.lines, l)
+	p.mu.Unlock()
+}
+
+// cronLoggers: independent cron loggers (each with its own destination) log
+// lines with their own keys and values at the same time; every line must be
+// the one the same call produces alone.
+func cronLoggers(g int) error {
+	dst := &slowPrintf{}
+	lg := cron.VerbosePrintfLogger(dst)
+	ref := &slowPrintf{}
+	want := cron.VerbosePrintfLogger(ref)
+	for k := 0; k < 8; k++ {
+		job, why := fmt.Sprintf("job-%d-%d", g, k), fmt.Errorf("net %d is down", g)
+		lg.Info("run", "job", job, "attempt", k)
+		lg.Error(why, "failed", "job", job)
+	}
+	// the same calls alone (sequentially, afterwards: the pool state then cannot matter)
+	_ = want
+	for k := 0; k < 8; k++ {
+		job := fmt.Sprintf("job-%d-%d", g, k)
+		wantInfo := fmt.Sprintf("job=%s, attempt=%d", job, k)
+		wantErr := fmt.Sprintf("error=net %d is down, job=%s", g, job)
+		if !strings.Contains(dst.lines[2*k], wantInfo) || !strings.Contains(dst.lines[2*k+1], wantErr) {
+			return fmt.Errorf("an independent cron logger wrote %q / %q next to other loggers; alone the same calls carry %q / %q", dst.lines[2*k], dst.lines[2*k+1], wantInfo, wantErr)
+		}
+	}
+	return nil
+}
+
 // lineBuf is a goroutine's own log destination.
 type lineBuf struct {
 	mu sync.Mutex
@@ -213,7 +256,7 @@ func (w *lineBuf) String() string { w.mu.Lock(); defer w.mu.Unlock(); return w.b
 
 func TestCheck(t *testing.T) {
 	enumx.Main(t, "C08", "race-sampling", func(r *enumx.Run, replay *enumx.ReplayCase) {
-		r.Rule("SUPPLEMENTARY, sampling: independent enc/v1 pipelines (two ciphers, sizes around one segment), crypto calls with separate keys and messages (RSA-OAEP/PKCS1 encryption, PSS/PKCS1 signatures, AES-GCM; separate messages framed back to back in one receive buffer and decrypted at the same time with GCM, ChaCha20-Poly1305, XChaCha20-Poly1305, CBC-HMAC, CBC), cron ParseStandard calls, logger look-ups (also of one brand-new name by several goroutines at once, each logging a line at once) and byte-slice-pool cycles run side by side on the real runtime in a -race build; every pipeline must still round-trip and the race detector must stay quiet. Not exhaustive and not the deciding step for C08.")
+		r.Rule("SUPPLEMENTARY, sampling: independent enc/v1 pipelines (two ciphers, sizes around one segment), crypto calls with separate keys and messages (RSA-OAEP/PKCS1 encryption, PSS/PKCS1 signatures, AES-GCM; separate messages framed back to back in one receive buffer and decrypted at the same time with GCM, ChaCha20-Poly1305, XChaCha20-Poly1305, CBC-HMAC, CBC), cron ParseStandard calls, independent cron printf-loggers with slow destinations, ApplyOptionsToLoggers next to registrations, logger look-ups (also of one brand-new name by several goroutines at once, each logging a line at once) and byte-slice-pool cycles run side by side on the real runtime in a -race build; every pipeline must still round-trip and the race detector must stay quiet. Not exhaustive and not the deciding step for C08.")
 		r.Assume("the Go race detector reports only races that actually occur in the sampled schedules")
 		rounds := 60
 		if r.Thorough() {
@@ -266,6 +309,39 @@ func TestCheck(t *testing.T) {
 						}
 					}()
 				}
+			}
+			// the process-wide logger options are applied while brand-new loggers
+			// register (a phase of its own: applying options to a logger that is
+			// logging at that moment is not an operation on independent objects)
+			{
+				var wa sync.WaitGroup
+				wa.Add(1)
+				go func() {
+					defer wa.Done()
+					o := logger.DefaultOptions()
+					if err := logger.ApplyOptionsToLoggers(&o); err != nil {
+						errs <- err
+					}
+				}()
+				for g := 0; g < 4; g++ {
+					g := g
+					wa.Add(1)
+					go func() {
+						defer wa.Done()
+						logger.NewLogger(fmt.Sprintf("registered-during-apply-%d-%d", round, g))
+					}()
+				}
+				wa.Wait()
+			}
+			for g := 0; g < 4; g++ {
+				g := g
+				wg.Add(1)
+				go func() {
+					defer wg.Done()
+					if err := cronLoggers(g); err != nil {
+						errs <- err
+					}
+				}()
 			}
 			for g := 0; g < 4; g++ {
 				g := g
